@@ -975,6 +975,12 @@ def gen_c13(rng, tier):
         if state == "verified":
             ops += ["A:x", "P:x:2.9:false:-"]
         mk(cases, "robust", ops, {"state": state})
+    # directed: on a verified connection, id lists that are not lists of <aid>.<iid>, ids of accessories that do not exist, write
+    # entries without ids / null entries: every request is answered and the connection keeps working
+    ops = ["N:h", "S:h:c0:ok", "N:x", "V:x:c0:ok", "G:x:1", "G:x:1.2.3", "G:x:", "G:x:1.9,", "G:x:,", "G:x:x.y", "G:x:42.9", "G:x:1.9,42.9", "G:x:2.9,0.0",
+           "P:x:42.9:true:-", "P:x:0.9:true:1", "PM:x:0.9~-~1+42.9~true~-+2.9~-~1", "G:x:2.9",
+           "N:y", "S:y:n2:ok", "N:z", "V:z:n2:ok", "G:z:2.9", "A:z", "P:z:2.9:true:-", "ST", "A:x", "P:x:2.9:false:-"]
+    mk(cases, "robust", ops, {"state": "verified"})
     # directed: steps and methods no handler has a name for, on both pairing endpoints (the accessory must answer and stay up)
     ops = ["N:h", "S:h:c0:ok", "N:x", "S:x:e1:badstep", "S:x:e1:badmethod", "B:x:ps:060107", "B:x:ps:0601ff", "B:x:pv:060105", "B:x:pv:060109", "B:x:pv:0601ff",
            "B:x:pairings:060109", "S:x:n1:ok", "S:x:n1:ok", "ST", "V:x:c0:ok", "V:x:c0:ok", "G:x:2.9",
